@@ -512,6 +512,14 @@ def rule_LB(run: Run) -> RuleResult:
                         bad = any(repo.resolve_class(ov.module, c.func) is sw for c in astu.calls_in(n.value) if isinstance(c.func, (ast.Name, ast.Attribute))) or "self.switch" in v
                         if bad:
                             res.add(f"labrea.overload.Overloaded.{name}:stores a switch in self.{t.attr}", False, f, n.lineno, ast.unparse(n)[:100], nec)
+    # read off the operations' paths as well: nothing built from the live table is kept on the object
+    for op in ("evaluate", "validate", "keys", "explain"):
+        for p in run.paths(ov, op):
+            for e in p.events:
+                if e.kind == "store" and len(e.args) == 2 and isinstance(e.args[0], Child) and e.target is not None and "New(Switch;" in e.target.key() \
+                        and (e.op or "").split(".")[-1] not in ("__init__",):
+                    res.add(f"labrea.overload.Overloaded.{op}:stores a switch in {e.text}", False, e.file, e.line,
+                            f"{e.text} = <switch built from the table at that moment>: later register() calls are invisible until it is rebuilt, and the unlocked check-build-store races with register()", nec)
     # each op reaches the builder on every returning path
     bnames = {b[0] for b in builders}
     for op in ("evaluate", "validate", "keys", "explain"):
@@ -625,6 +633,12 @@ def rule_MX(run: Run) -> RuleResult:
                 walk(e_.target)
     found = [w for i_, w in enumerate(found) if w.key() not in {x.key() for x in found[:i_]}]
     ok = bool(found) and all(w.attrs.get("force") == Const(True) and w.attrs.get("evaluatable") == Child("evaluatable") for w in found)
+    # the mapped keys are option keys: the pre-set dictionary of a combination is built with set_dotted_key (a flat
+    # dict(pairs) would leave a dotted key unread by Option('A.B'))
+    okeys = [w.attrs["options"].key() if w.attrs.get("options") is not None else "" for w in found]
+    ok_d = any("dotted-item(" in k_ for k_ in okeys) and all(k_ == "dict{}" or "dotted-item(" in k_ for k_ in okeys)
+    res.add("labrea.iterable.Map._iter:mapped keys pre-set as dotted option keys", ok_d, mp.module.relpath, mp.find_method("evaluate")[1].lineno,
+            f"pre-set dictionaries: {[k_[:80] for k_ in okeys]}", nec)
     res.add("labrea.iterable.Map._iter:each combination evaluated through a forcing WithOptions", ok, mp.module.relpath, mp.find_method("evaluate")[1].lineno,
             f"{len(found)} WithOptions terms: {[w.key()[:80] for w in found[:2]]}", nec)
     return res
